@@ -39,7 +39,8 @@ class BlockDiagonalOperator(EndomorphicOperator):
         self._ops = tuple(operators[key] if key in operators else None for key in domain.keys())
         self._capability = self._all_ops
 
-        self._dtype = {kk: oo.sampling_dtype for kk, oo in operators.items()}
+        # only EndomorphicOperators carry a sampling dtype (a block may be any LinearOperator)
+        self._dtype = {kk: getattr(oo, "sampling_dtype", None) for kk, oo in operators.items()}
         if all(vv is None for vv in self._dtype.values()):
             self._dtype = None
         if self._dtype is not None:
